@@ -97,17 +97,47 @@ func resolveRoles(a *A, rule string) *Roles {
 		!a.need(r.NewConn != nil, rule, "connection constructor (callee of Stream returning *slaveConnection)") {
 		return nil
 	}
-	// closures of the parser
+	// closures of the parser: commit = the one that (itself or through nested closures) calls the handler;
+	// begin = a niladic one that clears a captured bool (the open/closed flag) and does not call the handler
+	callsHandler := func(f *ssa.Function) bool {
+		found := false
+		var walk func(g *ssa.Function)
+		walk = func(g *ssa.Function) {
+			instrs(g, func(in ssa.Instruction) {
+				if c := callCommon(in); c != nil && !c.IsInvoke() && namedIs(c.Value.Type(), rootPath, "SendTransactionFunc") {
+					found = true
+				}
+			})
+			for _, n := range g.AnonFuncs {
+				walk(n)
+			}
+		}
+		walk(f)
+		return found
+	}
 	for _, an := range r.Parser.AnonFuncs {
-		callsHandler := false
+		if callsHandler(an) {
+			// several closures may call the handler (that is C02-R1's business); the commit closure is the one taking the event
+			takesEvent := an.Signature.Params().Len() == 1 && namedIs(an.Signature.Params().At(0).Type(), replPath, "BinlogEvent")
+			if r.Commit == nil || takesEvent {
+				r.Commit = an
+			}
+			continue
+		}
+		if an.Signature.Params().Len() != 0 || an.Signature.Results().Len() != 0 {
+			continue
+		}
+		clearsFlag := false
 		instrs(an, func(in ssa.Instruction) {
-			if c := callCommon(in); c != nil && !c.IsInvoke() && namedIs(c.Value.Type(), rootPath, "SendTransactionFunc") {
-				callsHandler = true
+			if st, ok := in.(*ssa.Store); ok {
+				if b, isC := constBool(st.Val); isC && !b {
+					if _, isFV := st.Addr.(*ssa.FreeVar); isFV {
+						clearsFlag = true
+					}
+				}
 			}
 		})
-		if callsHandler {
-			r.Commit = an
-		} else if an.Signature.Params().Len() == 0 && an.Signature.Results().Len() == 0 {
+		if clearsFlag {
 			r.Begin = an
 		}
 	}
